@@ -44,7 +44,7 @@ def gen_plan(prop, seed, index, tier="quick"):
         k = r.choice(["wrong_corr", "dup", "unsolicited", "truncate_body", "size_negative",
                       "size_huge", "eof_at", "reset_at", "overlong_body"])
         fault = {"at": at, "kind": k, "arg": r.randint(0, 60)}
-    return {"format": 1, "prop": prop, "engine": "conn", "seed": scenario.subseed(seed, prop, index),
+    plan = {"format": 1, "prop": prop, "engine": "conn", "seed": scenario.subseed(seed, prop, index),
             "index": index, "mode": mode, "timeout_ms": timeout_ms, "quirk": quirk,
             "corr_start": r.choice([0, 0, 5, 2**31 - 1 - r.randint(0, 6)]),
             # (byte-wise delivery of a 16 KiB frame would be 16 384 events at one instant)
@@ -52,6 +52,22 @@ def gen_plan(prop, seed, index, tier="quick"):
             "cluster": {"lat": [0.0001, r.choice([0.0003, 0.003])], "chunk": "whole",
                         "coalesce_eof": r.random() < 0.3},
             "reqs": reqs, "fault": fault}
+    # the idle reaper: its ticks fall between requests, between a waiter giving up and the
+    # late reply, ... (it may close a connection nobody is waiting on, nothing else)
+    plan["max_idle_ms"] = r.choice([None, None, 20, 60, 150, 400])
+    if mode == "conn":
+        # conn.send() has written the request when it returns; what the caller does with the
+        # awaitable afterwards (awaits it later, out of order, or drops it) must not matter
+        for q in reqs:
+            x = r.random()
+            if q["kind"] == "produce0":
+                continue
+            if x < 0.07:
+                q["waiter"] = "cancel_unstarted"
+            elif x < 0.2:
+                q["waiter"] = "late"
+                q["late_by"] = r.choice([0.0003, 0.005, 0.05, timeout_ms / 1000 * 1.2])
+    return plan
 
 
 def single_fault_plans(seed, tier):
@@ -345,6 +361,9 @@ def execute(plan):
     state = {"written": written}
 
     async def waiter_task(w, aw):
+        if w["spec"]["waiter"] == "late":
+            await asyncio.sleep(w["spec"]["late_by"])
+        w["t_start"] = world.now()
         t = asyncio.ensure_future(aw)
 
         def done(t, w=w):
@@ -369,6 +388,10 @@ def execute(plan):
             w["seq_done"] = world.log.add(world.now(), "waiter_done", w["i"], w["outcome"][0])
 
         t.add_done_callback(done)
+        if w["spec"]["waiter"] == "cancel_unstarted":
+            t.cancel()
+            w["cancelled"] = True
+            w["t_cancel"] = world.now()
         if w["spec"]["waiter"] == "cancel":
             await asyncio.sleep(w["spec"]["cancel_after"])
             if not t.done():
@@ -385,10 +408,12 @@ def execute(plan):
         client = None
         if plan["mode"] == "conn":
             conn = await create_conn(peer.host, peer.port, client_id="c12",
-                                     request_timeout_ms=plan["timeout_ms"])
+                                     request_timeout_ms=plan["timeout_ms"],
+                                     max_idle_ms=plan.get("max_idle_ms"))
         else:
             client = AIOKafkaClient(bootstrap_servers=f"{peer.host}:{peer.port}", client_id="c12",
-                                    request_timeout_ms=plan["timeout_ms"], metadata_max_age_ms=10**7)
+                                    request_timeout_ms=plan["timeout_ms"], metadata_max_age_ms=10**7,
+                                    connections_max_idle_ms=plan.get("max_idle_ms") or 540000)
             await client.bootstrap()
             await client.ready(1)
             conn = client._conns[(1, 0)]
@@ -557,6 +582,8 @@ def oracle(plan, world, peer, waiters, term, frames_delivered, state, timeout):
             if wr is None or wr[0] != cid0 or wr[1] > tt:
                 continue  # never written, or carried by another connection
             world.probe("outstanding_at_connection_loss")
+            if w.get("t_start", 0) > tt:
+                continue  # the harness itself looked at the awaitable only later
             if w.get("t_done") is not None and w["t_done"] > tt + 1e-4:
                 if out[0] in ("kafka_error",):
                     v("waiter_failed_late_after_connection_loss",
